@@ -90,6 +90,8 @@ structure Trace where
   sorted   : Option T      -- shape of sorted_tests(tree); none = ValueError
   listed   : List Nat      -- ids printed by `testtools.run --list`
   loaded   : List Nat      -- ids of the tests run by `testtools.run --load-list`
+  sortFilt : Option (List Nat)   -- ids yielded by `filter_by_ids(sorted_tests(tree), ids)` - sorting then filtering, as
+                                 -- `testtools.run discover --load-list` composes them; none = ValueError from sorted_tests
 deriving Repr
 
 def model (i : Input) : Trace :=
@@ -99,6 +101,7 @@ def model (i : Input) : Trace :=
     filtIter := iterate (filterIds S i.tree)
     sorted := sortedTests i.tree
     listed := iterate i.tree
-    loaded := iterate (filterIds S i.tree) }
+    loaded := iterate (filterIds S i.tree)
+    sortFilt := (sortedTests i.tree).map fun r => iterate (filterIds S r) }
 
 end TTV.Suite
